@@ -57,7 +57,7 @@ type storeDesc struct {
 
 func (s *storeDesc) label(k string) string {
 	for _, l := range s.Labels {
-		if l.K == k {
+		if strings.EqualFold(l.K, k) {
 			return l.V
 		}
 	}
@@ -221,7 +221,79 @@ func genWorld(rng *rand.Rand, large bool) *world {
 	if large && w.Rules != "off" {
 		w.RuleSet = append(w.RuleSet, genRangedRules(rng, nz)...)
 	}
+	applyCaseVariants(rng, w)
 	return w
+}
+
+func caseVariant(rng *rand.Rand, k string) string {
+	switch rng.Intn(3) {
+	case 0:
+		return strings.ToUpper(k[:1]) + k[1:]
+	case 1:
+		return strings.ToUpper(k)
+	}
+	return k
+}
+
+// applyCaseVariants: label keys are case-insensitive in pd (Zone = zone): in a quarter of the worlds the
+// stores spell the location label keys in different cases, and / or the replication settings and the rules
+// name the location labels in another case than the stores. In a few worlds some location VALUES differ
+// only in case from others (z1 / Z1) or are empty (= not set): those comparisons are not judged.
+func applyCaseVariants(rng *rand.Rand, w *world) {
+	if rng.Intn(4) != 0 {
+		return
+	}
+	mode := rng.Intn(3) // 0: store keys, 1: settings / rules, 2: both
+	if mode != 1 {
+		for i := range w.Stores {
+			for j := range w.Stores[i].Labels {
+				k := w.Stores[i].Labels[j].K
+				if (k == "zone" || k == "rack" || k == "host") && rng.Intn(100) < 45 {
+					w.Stores[i].Labels[j].K = caseVariant(rng, k)
+				}
+			}
+		}
+	}
+	if mode != 0 {
+		ren := map[string]string{"zone": caseVariant(rng, "zone"), "rack": caseVariant(rng, "rack"), "host": caseVariant(rng, "host")}
+		re := func(labels []string, iso string) ([]string, string) {
+			out := make([]string, len(labels))
+			for i, l := range labels {
+				out[i] = ren[l]
+			}
+			if iso != "" {
+				iso = ren[iso]
+			}
+			return out, iso
+		}
+		w.LocationLabels, w.IsolationLevel = re(w.LocationLabels, w.IsolationLevel)
+		for i := range w.RuleSet {
+			if len(w.RuleSet[i].Loc) > 0 {
+				w.RuleSet[i].Loc, w.RuleSet[i].Iso = re(w.RuleSet[i].Loc, w.RuleSet[i].Iso)
+			}
+			for j := range w.RuleSet[i].Cons {
+				if k := w.RuleSet[i].Cons[j].Key; (k == "zone" || k == "rack" || k == "host") && rng.Intn(3) == 0 {
+					w.RuleSet[i].Cons[j].Key = caseVariant(rng, k)
+				}
+			}
+		}
+	}
+	if rng.Intn(5) == 0 {
+		for i := range w.Stores {
+			if w.Stores[i].Kind == "fresh" || rng.Intn(100) >= 20 {
+				continue
+			}
+			j := rng.Intn(len(w.Stores[i].Labels))
+			if k := strings.ToLower(w.Stores[i].Labels[j].K); k != "zone" && k != "rack" && k != "host" {
+				continue
+			}
+			if rng.Intn(3) == 0 {
+				w.Stores[i].Labels[j].V = ""
+			} else {
+				w.Stores[i].Labels[j].V = strings.ToUpper(w.Stores[i].Labels[j].V)
+			}
+		}
+	}
 }
 
 func genStore(rng *rand.Rand, w *world, id uint64, nz, nr, nh int, good bool) storeDesc {
